@@ -55,6 +55,24 @@ func ruleC06(r *Report) {
 	checkC06Post(r, p)
 	checkC06Ctx(r, p)
 	checkConfigReadOnly(r, p, "C06.ctx", "saml", "IdentityProvider")
+	// the scoping attributes as they leave the builders: the writer/reader rules of C07 restricted to the fields this
+	// property speaks of (a builder that drops or rewrites InResponseTo, Recipient, Destination, Issuer, Audience or a
+	// validity bound changes what "every response the IdP emits" carries, whatever the assertion maker stored)
+	r.Rule("C06.emit", "the Element() builders emit InResponseTo, Recipient, Destination, Issuer, Audience, NotBefore and NotOnOrAfter as the field itself, under no guard but the field's own emptiness, under the names their readers use (C07.schema/verbatim/coverage restricted to these fields)", 10)
+	scoping := []string{"InResponseTo", "Recipient", "Destination", "Issuer", "Audience", "NotBefore", "NotOnOrAfter"}
+	r.remap = func(o *Obligation) (string, bool) {
+		if !strings.HasPrefix(o.Rule, "C07.") {
+			return o.Rule, true
+		}
+		for _, f := range scoping {
+			if strings.Contains(o.Construct, f) {
+				return "C06.emit", true
+			}
+		}
+		return "", false
+	}
+	safely(r, func() { checkBuilders(r, p) })
+	r.remap = nil
 }
 
 // assertionMakerFn: role = method named by the AssertionMaker interface on the default maker.
